@@ -50,10 +50,12 @@ fn gen(r: &mut Rng) -> Case {
             // a third of the replacement strings end in an escape
             let fx = if r.chance(1, 3) { format!("{}{}", fresh[k], r.pick(&ESCAPES).0) } else { fresh[k].to_string() };
             let f = fx.as_str();
-            aliases.push(match r.below(8) {
+            aliases.push(match r.below(9) {
                 0 | 1 => format!("{} > {f}", r.pick(&pool)),
                 2 => format!("{}{} > {f}", r.pick(&pool), r.pick(&pool)),
                 3 => format!("{} > +{f}", r.pick(&pool)),
+                // a suffixing romaniser over a sequence (seed C15-e): every matched segment is printed, then the suffix
+                8 => format!("{}{} > +{f}", r.pick(&pool), r.pick(&pool)),
                 4 => format!("[{}{}] > {f}", if r.chance(1, 2) { '+' } else { '-' }, F[r.below(26)].0),
                 5 => format!("{} > *", r.pick(&pool)),
                 6 => format!("{}, {} > {f}, {}", r.pick(&pool), r.pick(&pool), fresh[(k + 5) % 12]),
